@@ -272,7 +272,9 @@ type Report struct {
 	Dangling        []string // "target/<k> -> cas/<d> (what)"
 }
 
-func (r *Report) Clean() bool { return len(r.CasBad) == 0 && len(r.TargetBad) == 0 && len(r.Dangling) == 0 }
+func (r *Report) Clean() bool {
+	return len(r.CasBad) == 0 && len(r.TargetBad) == 0 && len(r.Dangling) == 0
+}
 
 func (r *Report) Summary() string {
 	return fmt.Sprintf("cas_ok=%d cas_bad=%d target_ok=%d target_bad=%d dangling=%d", r.CasOK, len(r.CasBad), r.TargetOK, len(r.TargetBad), len(r.Dangling))
